@@ -216,14 +216,14 @@ ROWS = {
        'without a Python error" is checked per entry on the stub profiles (a Python error on a fault-free run is a violation), not proved; histories of 2..4 consecutive main() runs in one process with every option given in one run and absent in the next: each run must equal the same run alone in a new process',
   tech='Lean 4 proof (decide +kernel over generated table; lookup/getopt lemmas) + translator + differential correspondence (CLI vs API)'),
  'C07': dict(
-  text='94 Lean theorems about per-operation models of 75 pyipmi.Ipmi operations (device id/GUID/watchdog, chassis and '
+  text='100 Lean theorems about per-operation models of 76 pyipmi.Ipmi operations (device id/GUID/watchdog, chassis and '
        'boot options, LAN, users, sensors/events, PICMG LED/fan/port/power/activation, HPM status) played against a '
        'byte-level reference BMC: for ALL in-range arguments and ALL conforming BMC states every write leaves exactly '
        'the state the arguments denote and every read returns the BMC\'s current state for the addressed object '
        '(channel, user, sensor+LUN, FRU, LED, port); by induction over ANY history the k-th result is the getter on '
        'the state at that moment (history independence; state invariant preserved). Laws of the conversion tables '
        'regenerated from the tree: boot device both directions against IPMI table 28-14, privilege, IP source, VLAN '
-       'round trip <= 4095, LED function coding; the reads include the parameter revision of the addressed LAN channel (revision-only mode), the HPM.1 rollback component mask + estimate, and no reading/state while the BMC flags them unavailable; five operations carry as-shipped/intended model variants chosen by probing the tree, with counter-example theorems for the as-shipped ones. Hidden state of the IMPLEMENTATION (class-level lists, shared default '
+       'round trip <= 4095, LED function coding; the reads include the parameter revision of the addressed LAN channel (revision-only mode), the HPM.1 rollback component mask + estimate, and no reading/state while the BMC flags them unavailable; the HPM.1 component description string byte for byte, Set Fan Level as its three request bytes on fan trays of both revisions, the OEM link types the library publishes, sensor states 0..14 with the reserved bit ignored; nine operations carry as-shipped/intended model variants chosen by probing the tree, with counter-example theorems for the as-shipped ones. Hidden state of the IMPLEMENTATION (class-level lists, shared default '
        'arguments, caches) is what the history correspondence over 1-3 connections and 1-2 BMC instances detects.',
   note='translators harness/translate/tables.py and registry.py regenerate the tables, wrapper constants and message '
        'layouts (as rewrite rules) each run; hand-written models Model/Api/*.lean (one exchange per operation) are tied '
